@@ -55,6 +55,17 @@ func c02Run(c *Ctx) {
 			spec = specs[r.Intn(3)]
 		}
 		desc = spec.Name
+	} else if r.Chance(0.3) {
+		// a single-node model from the per-operator generators (all 55 operators, every
+		// parameter shape they know), inputs randomly split into weights and caller tensors
+		name := c15Names[r.Intn(len(c15Names))]
+		req, _, ok := SampleValidReq(r, name, true)
+		if !ok {
+			c.Skip("no valid request")
+			return
+		}
+		spec = specFromOpReq(r, req, r.U64())
+		desc = trunc(req.Describe(), 400)
 	} else {
 		p := genProgram(r, 8)
 		if len(p.Nodes) == 0 {
